@@ -32,6 +32,11 @@ CHECKS = {
             "Random source records with up to 6 containers of both classes are merged while open; the merged container is compared with the overlay view, read with plain h5py, checked for identity, and a follow-up patch of the source is opened on both chains.",
             "follow-up patches are random data operations; stub refusal only for IH5MFRecord",
             "4 C05"),
+    "C10": ("exploration",
+            "runtime monitor after every commit (sidecar vs on-disk user block vs independently computed skeleton) plus lock-step differential of an update applied via a stub patch and directly",
+            "Random real IH5MFRecords; manifest consistency is checked after every commit; a stub from the newest manifest is compared structurally (same skeleton, all values Empty, merge refused), and an existence-based update history is executed both on a patch over the stub and directly on the real record, then the stub-made patch is joined with the real files and compared.",
+            "update histories restricted to existence-based operations as the property states; group patch_index not asserted",
+            "4 C10"),
     "C11": ("fault_enumeration",
             "crash injection: directory snapshots at API boundaries, every torn prefix of the committing user-block write, sys.monitoring LINE failpoints with SIGKILL in forked children, random-instant SIGKILL; recovery oracle on the crashed directory",
             "Per generated record one patch cycle is crashed at every API boundary, every prefix of the commit's user-block write, (quick: all commit-path + sampled; thorough: all) Python line boundaries inside the ih5 package, and at random instants during large writes; the crashed directory is judged by ledger equality, committed-set reopen and the three allowed outcomes for the complete set.",
